@@ -3,7 +3,7 @@ from engines.arena_prop import run_arena_property
 
 def run(ctx):
     return run_arena_property(ctx, ["BumpProof.Props.C03", "BumpProof.Props.Hist2@C03"],
-        runs_quick=[('scopes', 150, 120), ('aligned', 50, 100)],
+        runs_quick=[('scopes', 500, 120), ('aligned', 200, 100)],
         runs_thorough=[('scopes', 6000, 250), ('aligned', 2000, 200), ('claims', 2000, 200)],
         fields=(0, 1, 2, 3), extra_oracles=(),
         note='scope/checkpoint restore theorems on the model + correspondence + restore oracle (position, allocated, no release) on the implementation')
